@@ -7,7 +7,7 @@ use swc::atoms::JsWord;
 use swc_common::{Span, SyntaxContext, DUMMY_SP};
 use swc_ecma_ast::{
     ArrayLit, AssignExpr, AssignOp, AssignTarget, BindingIdent, Expr, ExprOrSpread, Ident,
-    SimpleAssignTarget,
+    ParenExpr, SimpleAssignTarget,
 };
 
 use super::visitor_util::get_dd_local_variable_name;
@@ -107,6 +107,12 @@ pub trait IdentProvider {
                     spread: Some(DUMMY_SP),
                     expr: Box::new(expr.clone()),
                 })],
+            })
+        } else if expr.is_seq() {
+            // a comma expression (`${a, b}`, o[a, b]) is the right-hand side of an assignment only inside parentheses
+            Expr::Paren(ParenExpr {
+                span: DUMMY_SP,
+                expr: Box::new(expr.clone()),
             })
         } else {
             expr.clone()
